@@ -263,6 +263,26 @@ def encodable(t):
     return True
 
 
+def with_placeholders(t):
+    """the same symbolic topic with every un-encodable str replaced by the valid filter "x" (to ask the
+    specification for the *shape* of the call)"""
+    def fix(it):
+        if it[0] != "str":
+            return it
+        try:
+            item_py(it).encode("utf-8")
+            return it
+        except UnicodeEncodeError:
+            return S("x")
+    if t[0] == "item":
+        return ["item", fix(t[1])]
+    if t[0] == "tuple":
+        return ["tuple", fix(t[1]), t[2]]
+    if t[0] == "list":
+        return ["list", [["pair", fix(e[1]), e[2]] if e[0] == "pair" else e for e in t[1]]]
+    return t
+
+
 def dec_model_pairs(r):
     """[0; n; (len; bytes; ob)*] -> list of (bytes, ob);  [k] -> ('raise', k)"""
     if r[0] != 0:
@@ -373,9 +393,8 @@ def all_strings(maxlen):
 def exhaustive_strings(ctx, out, j, maxlen):
     strs = list(all_strings(maxlen))
     encs = [s.encode("ascii") for s in strs]
-    m_filter = [r[0] for r in model.run_batch("validate", 1, [E(b) for b in encs])]
-    m_spec = [r[0] for r in model.run_batch("validate", 2, [E(b) for b in encs])]
-    m_topic = [r[0] for r in model.run_batch("validate", 3, [E(b) for b in encs])]
+    trio = model.run_batch("validate", 10, [E(b) for b in encs])     # [filter_check; spec_filter_ok; topic_check]
+    m_filter, m_spec, m_topic = [r[0] for r in trio], [r[1] for r in trio], [r[2] for r in trio]
     # the static predicates themselves
     for s, b, mf, ms, mt in zip(strs, encs, m_filter, m_spec, m_topic):
         out.cases += 2
@@ -397,10 +416,12 @@ def exhaustive_strings(ctx, out, j, maxlen):
     out.stat("static_predicate_strings", len(strs))
 
     for proto, vnum in VERSIONS:
-        m_sub = model.run_batch("validate", 5, [[vnum, 0, 0, 0, 0, 0] + E(b) for b in encs])
-        m_doc = model.run_batch("validate", 6, [[vnum, 0, 0, 0, 0, 0] + E(b) for b in encs])
-        m_pub = model.run_batch("validate", 4, [[vnum, 0, 1, 1] + E(b) for b in encs])
-        m_pubspec = model.run_batch("validate", 8, [[vnum, 0, 1, 1] + E(b) for b in encs])
+        both = model.run_batch("validate", 12, [[vnum, 0, 0, 0, 0, 0] + E(b) for b in encs])
+        m_doc = [r[:2] for r in both]           # [documented_ok; documented_shape]
+        m_sub = [r[2:] for r in both]           # subscribe_norm result
+        both = model.run_batch("validate", 11, [[vnum, 0, 1, 1] + E(b) for b in encs])
+        m_pub = [r[:1] for r in both]           # publish_args_check result code
+        m_pubspec = [r[1:] for r in both]       # [spec_publish_ok; spec_topic_ok]
         for connected in (True, False):
             c = new_client(vnum, connected)
             s = sock(c)
@@ -451,7 +472,8 @@ def exhaustive_strings(ctx, out, j, maxlen):
                     if c._last_mid != mid0:
                         j.disagreement({"kind": "subscribe", "v": vnum, "connected": connected, "topic": ["item", S(text)], "qos": 0,
                                         "options": ["absent"]}, f"_last_mid {mid0}->{c._last_mid} after rejected call", "unchanged")
-                out.seen(("xs", vnum, connected, text), nontrivial=not acc)
+                if not acc:
+                    out.nontrivial.add(("xs", vnum, connected, idx))
 
                 # ---- publish(text, b"x", 0)
                 mid0 = c._last_mid
@@ -491,7 +513,8 @@ def exhaustive_strings(ctx, out, j, maxlen):
                         base = snap(c)
                     if c._last_mid != mid0:
                         j.disagreement(pcase, f"_last_mid {mid0}->{c._last_mid} after rejected call", "unchanged")
-                out.seen(("xp", vnum, connected, text), nontrivial=not acc)
+                if not acc:
+                    out.nontrivial.add(("xp", vnum, connected, idx))
             out.stat("exhaustive_rejected_subscribes", n_rej)
             bad = conversation(c, vnum)
             out.cases += 1
@@ -517,13 +540,15 @@ def judge_subscribe(j, out, c, vnum, connected, topic, qos, options, mres, dres,
     out.cases += 1
     out.stat(group)
     if mres is None:
-        # a str that cannot be UTF-8 encoded: must be a ValueError (UnicodeEncodeError) and atomic
-        if r[0] != "raise" or r[1] != 1:
-            j.violation(case, f"subscribe with an un-encodable string: {r}", "sub-unencodable-not-valueerror")
-        if r[0] == "raise":
-            judge_atomic(j, case, c, r, before, after, mid0)
-        else:
+        # a str that cannot be UTF-8 encoded (lone surrogate): no byte-string model. The call must be rejected,
+        # with ValueError (UnicodeEncodeError is one) when it has a documented shape, and atomically.
+        if r[0] != "raise":
+            j.violation(case, f"subscribe with an un-encodable string was accepted: {r}", "sub-unencodable-accepted")
             clear_accepted(c)
+        else:
+            if dres is not None and dres[1] and r[1] != 1:
+                j.violation(case, f"a call of a documented shape must be rejected with ValueError, got {r[2]}", "sub-wrong-exception")
+            judge_atomic(j, case, c, r, before, after, mid0)
         return r
     out.validated += 1
     impl_kind = ("ok",) if r[0] == "ok" else ("raise", r[1])
@@ -640,22 +665,28 @@ def six_forms():
     ]
 
 
-def run_subscribe_cases(ctx, out, j, cases, group, loaded, conv_every):
+def run_subscribe_cases(ctx, out, j, cases, group, loaded, conv_every, versions=None):
     cases = list(cases)
-    for proto, vnum in VERSIONS:
-        encs, has_model = [], []
+    for proto, vnum in (versions or VERSIONS):
+        encs, has_model, shape_encs = [], [], []
         for t, q, o in cases:
             if encodable(t):
                 encs.append(sub_enc(vnum, t, q, o))
                 has_model.append(True)
             else:
+                shape_encs.append(sub_enc(vnum, with_placeholders(t), q, o))
                 has_model.append(False)
-        m5 = iter(model.run_batch("validate", 5, encs))
-        m6 = iter(model.run_batch("validate", 6, encs))
+        both = iter(model.run_batch("validate", 12, encs))
+        m6s = iter(model.run_batch("validate", 6, shape_encs))
         mres, dres = [], []
         for h in has_model:
-            mres.append(dec_model_pairs(next(m5)) if h else None)
-            dres.append(next(m6) if h else None)
+            if h:
+                r = next(both)
+                mres.append(dec_model_pairs(r[2:]))
+                dres.append(r[:2])
+            else:
+                mres.append(None)
+                dres.append(next(m6s))
         for connected in (True, False):
             c = new_client(vnum, connected, loaded=loaded)
             for k, ((t, q, o), mr, dr) in enumerate(zip(cases, mres, dres)):
@@ -758,10 +789,15 @@ def publish_matrix(ctx, out, j):
                     args.append(([vnum, qos, kind, plen], b))
         # the long topics would make the batch huge: send each distinct topic once per (qos, kind) only when short,
         # long ones with a reduced payload set
-        sel = [i for i, (tname, text, qos, pname) in enumerate(keys)
-               if len(text) < 1000 or pname in ("bytes", "list", "None")]
-        m4 = model.run_batch("validate", 4, [args[i][0] + E(args[i][1]) for i in sel])
-        m8 = model.run_batch("validate", 8, [args[i][0] + E(args[i][1]) for i in sel])
+        def long_row(tname, qos, pname):
+            if not ctx.quick:
+                return pname in ("bytes", "list", "None")
+            if pname not in ("bytes", "list") or qos not in (0, 3):
+                return False
+            return vnum == 4 or tname in ("len65535", "len65536", "mb65536")
+        sel = [i for i, (tname, text, qos, pname) in enumerate(keys) if len(text) < 1000 or long_row(tname, qos, pname)]
+        both = model.run_batch("validate", 11, [args[i][0] + E(args[i][1]) for i in sel])
+        m4, m8 = [r[:1] for r in both], [r[1:] for r in both]
         for connected in (True, False):
             c = new_client(vnum, connected, loaded=True)
             for n, (i, mr, sr) in enumerate(zip(sel, m4, m8)):
@@ -785,8 +821,8 @@ def payload_length_boundary(ctx, out, j):
         for plen in (268435455, 268435456, 300000000):
             for qos in (0, 1):
                 rows.append((plen, qos))
-        m4 = model.run_batch("validate", 4, [[vnum, q, 1, n] + E(b"a") for n, q in rows])
-        m8 = model.run_batch("validate", 8, [[vnum, q, 1, n] + E(b"a") for n, q in rows])
+        both = model.run_batch("validate", 11, [[vnum, q, 1, n] + E(b"a") for n, q in rows])
+        m4, m8 = [r[:1] for r in both], [r[1:] for r in both]
         for connected in (True, False):
             for (plen, qos), mr, sr in zip(rows, m4, m8):
                 if connected and plen <= 268435455:
@@ -831,9 +867,15 @@ def boundary_and_random(ctx, out, j):
     cases = []
     for name, text in bf:
         cases.append((["item", S(text)], 1, ["absent"]))
-        cases.append((["tuple", S(text), ["int", 2]], 0, ["absent"]))
-        cases.append((["list", [["pair", S("ok"), ["int", 0]], ["pair", S(text), ["int", 1]]]], 0, ["absent"]))
-    run_subscribe_cases(ctx, out, j, cases, "subscribe_boundary", loaded=True, conv_every=0)
+        if not ctx.quick or name in ("a65535", "a65536", "mb65536", "hash65535"):
+            cases.append((["tuple", S(text), ["int", 2]], 0, ["absent"]))
+            cases.append((["list", [["pair", S("ok"), ["int", 0]], ["pair", S(text), ["int", 1]]]], 0, ["absent"]))
+    if ctx.quick:
+        run_subscribe_cases(ctx, out, j, cases, "subscribe_boundary", loaded=True, conv_every=0, versions=VERSIONS[1:2])
+        few = [cs for cs in cases if cs[0][0] == "item"][:4]
+        run_subscribe_cases(ctx, out, j, few, "subscribe_boundary", loaded=True, conv_every=0, versions=[VERSIONS[0], VERSIONS[2]])
+    else:
+        run_subscribe_cases(ctx, out, j, cases, "subscribe_boundary", loaded=True, conv_every=0)
     out.sample({"group": "subscribe_boundary", "filters": [n for n, _ in bf]})
 
     rng = ctx.rng
@@ -852,8 +894,8 @@ def boundary_and_random(ctx, out, j):
             except UnicodeEncodeError:
                 enc_ok.append(None)
         rows = [[vnum, 1, 1, 3] + E(b) for b in enc_ok if b is not None]
-        m4 = model.run_batch("validate", 4, rows)
-        m8 = model.run_batch("validate", 8, rows)
+        both = model.run_batch("validate", 11, rows)
+        m4, m8 = [r[:1] for r in both], [r[1:] for r in both]
         for connected in (True, False):
             c = new_client(vnum, connected, loaded=False)
             k = 0
@@ -945,10 +987,13 @@ def run(ctx, out):
                 c = new_client(vnum, connected, loaded=True)
                 r = judge_subscribe(j, out, c, vnum, connected, t, q, o, mr, dr, "six_forms", check_conv=True)
                 out.seen(("six", name, vnum, connected))
-                if (vnum in versions) != (r[0] == "ok"):
+                # independent of the extracted documented_ok: the docstring's own examples must work for the
+                # protocol versions it names (a v5-only form used with MQTT 3.x is judged by documented_ok alone:
+                # form 2 degenerates to form 1 there because `options` is "Not used")
+                if vnum in versions and r[0] != "ok":
                     j.violation({"kind": "subscribe", "v": vnum, "connected": connected, "topic": t, "qos": q, "options": o},
-                                f"calling convention '{name}' with protocol {vnum}: {r}",
-                                "sub-documented-rejected" if vnum in versions else "sub-undocumented-accepted")
+                                f"calling convention '{name}' with protocol {vnum}: {r}", "sub-documented-rejected")
+                out.stat(f"six_forms:{name[0]}:v{vnum}:{'ok' if r[0] == 'ok' else 'raise' + str(r[1])}")
     out.sample({"group": "six_forms", "forms": [f[0] for f in six_forms()]})
 
     run_subscribe_cases(ctx, out, j, sub_domain(ctx), "subscribe_small_scope", loaded=True, conv_every=3000)
